@@ -18,7 +18,9 @@ warnings.filterwarnings('ignore')
 
 ROOT = os.path.dirname(os.path.dirname(os.path.abspath(__file__)))
 LEAN = os.path.join(ROOT, 'lean')
-REPO = '/repo'
+REPO = os.environ.get('YAQL_REPO', '/repo')   # development: point the checks at a scratch worktree
+if REPO != '/repo':
+    sys.path.insert(0, REPO)
 DRIVER = os.path.join(LEAN, '.lake', 'build', 'bin', 'yaqlmodel')
 ALLOWED_AXIOMS = {'propext', 'Classical.choice', 'Quot.sound'}
 FORBIDDEN_RE = re.compile(
@@ -44,7 +46,9 @@ class _Lock:
 
 def lake_build(targets, timeout=3000):
     """Build the given lake targets.  Returns (ok, output)."""
+    import gendriver
     with _Lock():
+        gendriver.main()
         try:
             p = subprocess.run(['lake', 'build'] + list(targets), cwd=LEAN,
                                stdout=subprocess.PIPE, stderr=subprocess.STDOUT,
